@@ -38,11 +38,11 @@ type c16call struct {
 type c16key struct{}
 
 func scenC16(r *Run) {
-	modes := []string{"failover", "failtry", "failfast", "forking", "broadcast", "failover", "concurrent-failover", "failtry", "concurrent-failover"}
+	modes := []string{"failover", "failtry", "failfast", "forking", "broadcast", "failover", "concurrent-failover", "failtry", "concurrent-failover", "socket-cluster"}
 	mode := modes[r.Index%len(modes)]
 	sub := r.Index / len(modes)
 	// failover and failtry occur twice in the rotation: their two slots count through consecutive sub-indices, so
-	// that 9*1296 consecutive runs enumerate the whole configuration x sequence-block matrix of each
+	// that 10*1296 consecutive runs enumerate the whole configuration x sequence-block matrix of each
 	switch r.Index % len(modes) {
 	case 0, 1, 6:
 		sub = sub * 2
@@ -54,6 +54,10 @@ func scenC16(r *Run) {
 		sub = r.Index
 	}
 	r.Param("mode", mode)
+	if mode == "socket-cluster" {
+		scenC16Socket(r, sub)
+		return
+	}
 	RegisterKind("mock")
 	stalls := []time.Duration(nil)
 	// preemption points only inside the cluster plugin: that is where calls share state (the failover index), and
